@@ -325,6 +325,14 @@ XPath30Parser.symbol_table['function'] = _InlineFunction
 
 ###
 # Mathematical functions
+def _to_double(value: ta.NumericType) -> float:
+    """Promotes a numeric argument to xs:double, an integer out of range becomes infinite."""
+    try:
+        return float(value)
+    except OverflowError:
+        return math.inf if value > 0 else -math.inf
+
+
 @method(function('pi', prefix='math', nargs=0, sequence_types=('xs:double',)))
 def evaluate__pi(self: XPathFunction, context: ta.ContextType = None) -> float:
     return math.pi
@@ -381,7 +389,7 @@ def evaluate__pow(self: XPathFunction, context: ta.ContextType = None) -> ta.One
     elif not x and y < 0:
         return math.copysign(float('inf'), x) if (y % 2) == 1 else float('inf')
 
-    x = float(x)
+    x = _to_double(x)
     if not isinstance(y, int):
         y = float(y)
 
@@ -401,7 +409,7 @@ def evaluate__sqrt(self: XPathFunction, context: ta.ContextType = None) -> ta.On
         return []
     elif arg < 0:
         return math.nan
-    return math.sqrt(arg)
+    return math.sqrt(_to_double(arg))
 
 
 @method(function('sin', prefix='math', nargs=1,
@@ -410,7 +418,7 @@ def evaluate__sin(self: XPathFunction, context: ta.ContextType = None) -> ta.One
     arg: ta.NumericType | None = self.get_argument(self.context or context, cls=NumericProxy)
     if arg is None:
         return []
-    elif math.isinf(arg):
+    elif math.isinf(arg := _to_double(arg)):
         return math.nan
     return math.sin(arg)
 
@@ -421,7 +429,7 @@ def evaluate__cos(self: XPathFunction, context: ta.ContextType = None) -> ta.One
     arg: ta.NumericType | None = self.get_argument(self.context or context, cls=NumericProxy)
     if arg is None:
         return []
-    elif math.isinf(arg):
+    elif math.isinf(arg := _to_double(arg)):
         return math.nan
     return math.cos(arg)
 
@@ -432,7 +440,7 @@ def evaluate__tan(self: XPathFunction, context: ta.ContextType = None) -> ta.One
     arg: ta.NumericType | None = self.get_argument(self.context or context, cls=NumericProxy)
     if arg is None:
         return []
-    elif math.isinf(arg):
+    elif math.isinf(arg := _to_double(arg)):
         return math.nan
     return math.tan(arg)
 
@@ -465,7 +473,7 @@ def evaluate__atan(self: XPathFunction, context: ta.ContextType = None) -> ta.On
     arg: ta.NumericType | None = self.get_argument(self.context or context, cls=NumericProxy)
     if arg is None:
         return []
-    return math.atan(arg)
+    return math.atan(_to_double(arg))
 
 
 @method(function('atan2', prefix='math', nargs=2,
@@ -476,7 +484,7 @@ def evaluate__atan2(self: XPathFunction, context: ta.ContextType = None) -> ta.O
 
     x = self.get_argument(context, required=True, cls=NumericProxy)
     y = self.get_argument(context, index=1, required=True, cls=NumericProxy)
-    return math.atan2(x, y)
+    return math.atan2(_to_double(x), _to_double(y))
 
 
 ###
